@@ -16,7 +16,7 @@ RULE = ('1-3 bundles relayed in sequence by one node (so that state carried from
         'Received encoding and transmitted bytes are both decoded by the reference decoder and compared. Non-trivial: at least one hop-by-hop '
         'block present on input; distinct = digest of the bundle descriptors.')
 COMPONENTS = bc.COMPONENTS
-PROBES = ('in.prev_node', 'in.hop_count', 'in.two_hop_count', 'in.age', 'in.create_time_zero', 'in.unknown_ext', 'in.large_block_num', 'seq.multi', 'probe.negative_age', 'fault.busy_before_forward', 'in.duplicate_block_num', 'in.ipn_three_element_eid', 'fault.cl_send_error', 'in.prev_node_not_an_eid')
+PROBES = ('in.prev_node', 'in.hop_count', 'in.two_hop_count', 'in.age', 'in.create_time_zero', 'in.unknown_ext', 'in.large_block_num', 'seq.multi', 'probe.negative_age', 'fault.busy_before_forward', 'in.duplicate_block_num', 'in.ipn_three_element_eid', 'fault.cl_send_error', 'in.prev_node_not_an_eid', 'in.not_shortest_form')
 ASSUMPTIONS = ['age is judged against the relay clock and only for non-negative differences (negative skew is a probe)',
                'hop counts are generated below their limit']
 CHUNK = 25
@@ -65,11 +65,20 @@ def gen(ch, tier):
             cl_fail=(bix < 2 and ch.coin('clfail', 1, 8)), lifetime=ch.choice('life', (1000, 3600000)), flags=ch.choice('fl', (0, 4, 0x20)), pri_crc=ch.choice('pc', (0, 1, 2, 2)),
             pay_crc=ch.pick('yc', 3), plen=1 + ch.pick('plen', 60), tag=bix + 1, blocks=blocks, gap_ms=ch.choice('gap', (0, 1, 999, 60000)),
             busy_ms=ch.choice('busy', (0, 0, 0, 3, 40, 1500)), dup_nums=dup_nums))
+    for item in bundles:
+        # legal encodings that are not the shortest form (an unsigned integer with a wider head): the relay decodes the same
+        # values, and whatever it transmits must again carry CRCs that fit the transmitted octets
+        if ch.coin('wide', 1, 4):
+            item['wide_pri'] = ch.choice('wide.pri', ([], [7], [1], [7, 1]))
+            item['wide_pay'] = ch.choice('wide.pay', ([], [1], [2]))
+            for blk in item['blocks']:
+                if blk['type'] not in (6, 7, 10) or ch.coin('wide.known', 1, 2):
+                    blk['wide'] = ch.choice('wide.blk', ([], [1], [2], [1, 2]))
     return dict(scenario='bp_forward', bundles=bundles, skew_ms=ch.choice('skew', (0, 0, 5000, 86400000, -5000, -86400000)))
 
 
 def encode(item):
-    pri = dict(flags=item['flags'], crc_type=item['pri_crc'], destination='dtn://broken/app' if item.get('cl_fail') else item['dest'], source=item['source'], report_to=item['report_to'],
+    pri = dict(wide=tuple(item.get('wide_pri', ())), flags=item['flags'], crc_type=item['pri_crc'], destination='dtn://broken/app' if item.get('cl_fail') else item['dest'], source=item['source'], report_to=item['report_to'],
                create_time=item['time'], seqno=item['seqno'], lifetime=item['lifetime'])
     blocks = []
     for blk in item['blocks']:
@@ -83,8 +92,8 @@ def encode(item):
             btsd = cbor2.dumps(blk['age'])
         else:
             btsd = bytes.fromhex(blk['raw'])
-        blocks.append(dict(type=blk['type'], num=blk['num'], flags=blk['flags'], crc_type=blk['crc_type'], btsd=btsd))
-    blocks.append(dict(type=1, num=1, flags=0, crc_type=item['pay_crc'], btsd=bc.body(item['tag'], item['plen'])))
+        blocks.append(dict(type=blk['type'], num=blk['num'], flags=blk['flags'], crc_type=blk['crc_type'], btsd=btsd, wide=tuple(blk.get('wide', ()))))
+    blocks.append(dict(type=1, num=1, flags=0, crc_type=item['pay_crc'], btsd=bc.body(item['tag'], item['plen']), wide=tuple(item.get('wide_pay', ()))))
     return rfc9171.encode_bundle(pri, blocks)
 
 
@@ -234,6 +243,8 @@ def describe(run):
             counters['in.age'] = 1
         if item['time'] == 0:
             counters['in.create_time_zero'] = 1
+        if item.get('wide_pri') or item.get('wide_pay') or any(blk.get('wide') for blk in item['blocks']):
+            counters['in.not_shortest_form'] = 1
         if any(typ not in (6, 7, 10) for typ in types):
             counters['in.unknown_ext'] = 1
         if any(blk['num'] > 255 for blk in item['blocks']):
